@@ -5,6 +5,7 @@ package main
 var verifHarnesses = map[string]func(){
 	"VerifC17Mcrew":      VerifC17Mcrew,
 	"VerifC16Faults":     VerifC16Faults,
+	"VerifC16Partial":    VerifC16Partial,
 	"VerifC16Routing":    VerifC16Routing,
 	"VerifC16Concurrent": VerifC16Concurrent,
 }
